@@ -3,3 +3,4 @@ pub mod multi;
 pub mod dynamic;
 pub mod satobj;
 pub mod exchange;
+pub mod faults;
